@@ -1,14 +1,14 @@
 ------------------------------- MODULE MC_C13 -------------------------------
 EXTENDS QPool
 MCTables == {"dict_hs2choi", "dict_choi2hs", "basis_T", "basisconj", "bb_conj_basis", "bb_T", "bb_T_from1", "bh_b_T_from1", "bb_dict"}
-QuickTables == {"dict_hs2choi", "basis_T", "basisconj", "bb_T", "bb_T_from1"}
+QuickTables == {"dict_hs2choi", "dict_choi2hs", "basis_T", "bb_T", "bb_T_from1"}
 MCGroup == [t \in MCTables |->
     CASE t \in {"basis_T", "basisconj"} -> "g1"
       [] t \in {"bb_conj_basis", "bb_T", "bb_T_from1", "bh_b_T_from1"} -> "g2"
       [] OTHER -> t]
 NoTables == {}
 OnePure == {"q_state"}
-QuickPure == {"q_state", "conv_gate", "proj_state", "proj_gate", "proj_povm", "proj_mprocess", "compose", "tensor", "var_roundtrip", "copy_mutate"}
+QuickPure == {"q_state", "conv_gate", "conv_choi2hs", "proj_state", "proj_gate", "proj_povm", "proj_mprocess", "compose", "tensor", "var_roundtrip", "copy_mutate"}
 AllPure == QuickPure \cup {"q_povm", "q_gate", "q_mprocess", "conv_state", "conv_povm", "conv_mprocess",
                            "physproj_state", "physproj_gate", "physproj_povm", "physproj_mprocess",
                            "compose_m", "tensor_gm", "gradient", "lindbladian", "ensemble", "stacked_var"}
